@@ -203,6 +203,16 @@ class Trace:
             tg = self.mask(list(a["qubits"]))
             if tg == 0:
                 raise Unsupported("empty SLM mask")
+            dch = self.device.dmm_channels.get(a["dmm_id"])
+            if dch is not None:
+                # two things the model states it does not cover (it would Assert): the automatic pulse of
+                # a *modulated* mask DMM, and a total bottom detuning that does not divide exactly
+                if dch.mod_bandwidth is not None:
+                    raise Unsupported("SLM mask on a modulated DMM")
+                n = bin(tg).count("1")
+                tb = getattr(dch, "total_bottom_detuning", None)
+                if tb is not None and int(round(float(tb) * 1e6)) % n != 0:
+                    raise Unsupported("total bottom detuning not divisible by the number of masked atoms")
             return {"op": "slm", "tg": tg, "cid": cid}
         if name == "add_dmm_detuning":
             wf = a["waveform"]
